@@ -158,6 +158,8 @@ macro_rules! c13_ghost_support {
             pub n: ::core::cell::Cell<usize>,
             /// index of the call that fails (the failing call is still recorded)
             pub fail_at: Option<usize>,
+            /// call k answers with tag tag_base + k + 1
+            pub tag_base: u8,
         }
 
         // the harnesses are single threaded; the trait demands Send + Sync
@@ -177,6 +179,7 @@ macro_rules! c13_ghost_support {
                     trace: ::core::cell::RefCell::new([empty; MAX_CALLS]),
                     n: ::core::cell::Cell::new(0),
                     fail_at: None,
+                    tag_base: 0,
                 }
             }
 
@@ -195,7 +198,7 @@ macro_rules! c13_ghost_support {
                 if self.fail_at == Some(idx) {
                     return Err(GhostError);
                 }
-                Ok(idx as u8 + 1)
+                Ok(self.tag_base + idx as u8 + 1)
             }
 
             pub(crate) fn calls(&self) -> usize {
@@ -226,7 +229,7 @@ macro_rules! c13_ghost_support {
                         if found.is_some() {
                             return None;
                         }
-                        found = Some(i as u8 + 1);
+                        found = Some(self.tag_base + i as u8 + 1);
                     }
                     i += 1;
                 }
@@ -535,6 +538,54 @@ macro_rules! c13_ghost_support {
             o
         }
 
+        // RFC 9420 section 8.1:
+        //   struct { ProtocolVersion version = mls10; CipherSuite cipher_suite; opaque group_id<V>;
+        //            uint64 epoch; opaque tree_hash<V>; opaque confirmed_transcript_hash<V>;
+        //            Extension extensions<V>; } GroupContext;
+        //   struct { ExtensionType extension_type; opaque extension_data<V>; } Extension;
+        // (ProtocolVersion, CipherSuite, ExtensionType: uint16)
+        pub(crate) fn rfc_group_context(c: &::mls_rs_core::group::GroupContext) -> ::alloc::vec::Vec<u8> {
+            let mut o = ::alloc::vec::Vec::with_capacity(64);
+            rfc_u16(&mut o, *c.protocol_version);
+            rfc_u16(&mut o, *c.cipher_suite);
+            rfc_opaque(&mut o, &c.group_id);
+            rfc_u64(&mut o, c.epoch);
+            rfc_opaque(&mut o, &c.tree_hash);
+            rfc_opaque(&mut o, &c.confirmed_transcript_hash);
+            let mut exts = ::alloc::vec::Vec::with_capacity(16);
+            let mut i = 0;
+            while i < c.extensions.len() {
+                let e = &c.extensions[i];
+                rfc_u16(&mut exts, e.extension_type.raw_value());
+                rfc_opaque(&mut exts, &e.extension_data);
+                i += 1;
+            }
+            rfc_opaque(&mut o, &exts);
+            o
+        }
+
+        pub(crate) fn group_context(
+            gid: &[u8],
+            tree_hash: &[u8],
+            cth: &[u8],
+            ext_data: Option<&[u8]>,
+        ) -> ::mls_rs_core::group::GroupContext {
+            let mut extensions = ::mls_rs_core::extension::ExtensionList::new();
+            if let Some(d) = ext_data {
+                extensions.set(::mls_rs_core::extension::Extension::new(::mls_rs_core::extension::ExtensionType::from(kani::any::<u16>()), d.to_vec()));
+            }
+            ::mls_rs_core::group::GroupContext {
+                protocol_version: ::mls_rs_core::protocol_version::ProtocolVersion::from(kani::any::<u16>()),
+                cipher_suite: ::mls_rs_core::crypto::CipherSuite::from(kani::any::<u16>()),
+                group_id: gid.to_vec(),
+                epoch: kani::any(),
+                tree_hash: tree_hash.to_vec(),
+                confirmed_transcript_hash: ::mls_rs_core::group::ConfirmedTranscriptHash::from(cth.to_vec()),
+                extensions,
+            }
+        }
+
+
         /// symbolic byte string of symbolic length 0..=N.  Only for arguments that the code
         /// under test passes through untouched: CBMC's cost explodes as soon as a buffer whose
         /// LAYOUT depends on a symbolic length is read back, so encoded inputs use
@@ -587,10 +638,6 @@ macro_rules! c13_ghost_support {
 crate::c13_ghost_support!();
 
 use crate::group::SecretTree;
-use mls_rs_core::crypto::CipherSuite;
-use mls_rs_core::extension::{Extension, ExtensionList, ExtensionType};
-use mls_rs_core::group::ConfirmedTranscriptHash;
-use mls_rs_core::protocol_version::ProtocolVersion;
 
 // ============================================================ 1. ExpandWithLabel
 // RFC 9420 section 8:  ExpandWithLabel(Secret, Label, Context, Length) =
@@ -769,4 +816,222 @@ fn c13_from_epoch_secret() {
     check_epoch_secrets(&p, 0, &epoch_secret, &r);
     assert!(r.joiner_secret.0.is_empty());
     core::mem::forget(r);
+}
+
+// ============================================================ 4. joiner / epoch / welcome
+// (GroupContext oracle `rfc_group_context` and builder `group_context`: shared support above)
+// The bytes that from_key_schedule / from_joiner feed into the "joiner" / "epoch" labels
+// (`context.mls_encode_to_vec()`) are the RFC GroupContext encoding: all field values
+// symbolic, group_id / tree_hash / confirmed_transcript_hash of every length 0..=2, no
+// extension or one extension with 0..=1 data bytes.
+fn group_context_case(gid: &[u8], th: &[u8], cth: &[u8], ext: Option<&[u8]>) {
+    let c = group_context(gid, th, cth, ext);
+    let enc = c.mls_encode_to_vec();
+    assert!(enc.is_ok());
+    let enc = enc.ok().unwrap();
+    kani::cover!(ext.is_some() && gid.len() == 2 && cth.len() == 2);
+    kani::cover!(ext.is_none() && gid.is_empty());
+    assert!(bytes_eq(&enc, &rfc_group_context(&c)));
+    core::mem::forget(c);
+}
+
+#[kani::proof]
+#[kani::unwind(12)]
+fn c13_group_context_encoding_bounded_2() {
+    let g: [u8; 2] = kani::any();
+    let t: [u8; 2] = kani::any();
+    let h: [u8; 2] = kani::any();
+    let e: [u8; 1] = kani::any();
+    let with_ext: bool = kani::any();
+    for_each_prefix(&g, |gid| {
+        for_each_prefix(&t, |th| {
+            for_each_prefix(&h, |cth| {
+                if with_ext {
+                    for_each_prefix(&e, |ed| group_context_case(gid, th, cth, Some(ed)));
+                } else {
+                    group_context_case(gid, th, cth, None);
+                }
+            })
+        })
+    });
+}
+
+/// a PskSecret with a value that no call of the provider under test can produce
+/// ([101; NH], from a second ghost provider whose tags start at 101)
+fn foreign_psk_secret() -> (PskSecret, Vec<u8>) {
+    let mut q = GhostProvider::new();
+    q.tag_base = 100;
+    let input = [crate::psk::secret::PskSecretInput {
+        id: crate::psk::PreSharedKeyID {
+            key_id: crate::psk::JustPreSharedKeyID::External(crate::psk::ExternalPskId::new(vec![])),
+            psk_nonce: crate::psk::PskNonce(vec![]),
+        },
+        psk: crate::psk::PreSharedKey::new(vec![]),
+    }];
+    let s = PskSecret::calculate(&input, &q).ok().unwrap();
+    assert!(is_out(&s, 103, NH));
+    (s, out(103, NH))
+}
+
+// pre-epoch ("member") secret = KDF.Extract(salt = joiner_secret, ikm = psk_secret)
+#[kani::proof]
+#[kani::stub(zeroize::optimization_barrier, noop_barrier)]
+#[kani::unwind(12)]
+fn c13_get_pre_epoch_secret() {
+    let p = GhostProvider::new();
+    let joiner = any_exact::<NH>();
+    let (psk, psk_bytes) = foreign_psk_secret();
+    let js = JoinerSecret::from(Zeroizing::new(joiner.clone()));
+    let r = get_pre_epoch_secret(&p, &psk, &js);
+    assert!(r.is_ok());
+    let o = r.ok().unwrap();
+    kani::cover!(true);
+    assert!(p.calls() == 1);
+    assert!(p.is(0, Op::Extract, &joiner, &psk_bytes, 0));
+    assert!(is_out(&o, 1, NH));
+    // without PSKs the psk_secret is KDF.Nh zero bytes
+    assert!(is_out(&PskSecret::new(&p), 0, NH));
+}
+
+fn small_context() -> GroupContext {
+    let g: [u8; 2] = kani::any();
+    let t: [u8; 1] = kani::any();
+    let h: [u8; 2] = kani::any();
+    group_context(&g, &t, &h, None)
+}
+
+// from_joiner: epoch_secret = ExpandWithLabel(Extract(joiner_secret, psk_secret), "epoch",
+// GroupContext_[n], KDF.Nh), then the nine epoch secrets
+#[kani::proof]
+#[kani::stub(zeroize::optimization_barrier, noop_barrier)]
+#[kani::stub(std::hash::RandomState::new, fixed_random_state)]
+#[kani::stub(crate::group::secret_tree::SecretTree::new, recording_tree_new)]
+#[kani::unwind(16)]
+fn c13_from_joiner() {
+    let p = GhostProvider::new();
+    let joiner = any_exact::<NH>();
+    let (psk, psk_bytes) = foreign_psk_secret();
+    let ctx = small_context();
+    let js = JoinerSecret::from(Zeroizing::new(joiner.clone()));
+
+    let r = KeySchedule::from_joiner(&p, &js, &ctx, TREE_SIZE, &psk);
+    assert!(r.is_ok());
+    let r = r.ok().unwrap();
+    kani::cover!(true);
+
+    assert!(p.is(0, Op::Extract, &joiner, &psk_bytes, 0));
+    let info = rfc_kdf_label(NH as u16, b"epoch", &rfc_group_context(&ctx));
+    assert!(p.is(1, Op::Expand, &out(1, NH), &info, NH));
+    check_epoch_secrets(&p, 2, &out(2, NH), &r);
+    core::mem::forget((r, ctx));
+}
+
+// from_key_schedule (figure 22, top to "epoch_secret"):
+//   joiner_secret = ExpandWithLabel(Extract(salt = init_secret_[n-1], ikm = commit_secret),
+//                                   "joiner", GroupContext_[n], KDF.Nh)
+#[kani::proof]
+#[kani::stub(zeroize::optimization_barrier, noop_barrier)]
+#[kani::stub(std::hash::RandomState::new, fixed_random_state)]
+#[kani::stub(crate::group::secret_tree::SecretTree::new, recording_tree_new)]
+#[kani::unwind(16)]
+fn c13_from_key_schedule() {
+    let p = GhostProvider::new();
+    let init = any_exact::<NH>();
+    let commit = any_exact::<NH>();
+    let (psk, psk_bytes) = foreign_psk_secret();
+    let ctx = small_context();
+    let last = KeySchedule::new(InitSecret(Zeroizing::new(init.clone())));
+    let commit_secret = PathSecret::from(commit.clone());
+
+    let r = KeySchedule::from_key_schedule(&last, &commit_secret, &ctx, TREE_SIZE, &psk, &p);
+    assert!(r.is_ok());
+    let r = r.ok().unwrap();
+    kani::cover!(true);
+
+    let gc = rfc_group_context(&ctx);
+    assert!(p.is(0, Op::Extract, &init, &commit, 0));
+    assert!(p.is(1, Op::Expand, &out(1, NH), &rfc_kdf_label(NH as u16, b"joiner", &gc), NH));
+    assert!(is_out(&r.joiner_secret.0, 2, NH));
+    assert!(p.is(2, Op::Extract, &out(2, NH), &psk_bytes, 0));
+    assert!(p.is(3, Op::Expand, &out(3, NH), &rfc_kdf_label(NH as u16, b"epoch", &gc), NH));
+    check_epoch_secrets(&p, 4, &out(4, NH), &r);
+    core::mem::forget((r, ctx, last));
+}
+
+// Welcome (section 12.4.3.1): welcome_secret = DeriveSecret(Extract(joiner_secret, psk_secret),
+// "welcome"); welcome_nonce = ExpandWithLabel(welcome_secret, "nonce", "", AEAD.Nn);
+// welcome_key = ExpandWithLabel(welcome_secret, "key", "", AEAD.Nk)
+#[kani::proof]
+#[kani::stub(zeroize::optimization_barrier, noop_barrier)]
+#[kani::unwind(12)]
+fn c13_welcome_secret() {
+    let p = GhostProvider::new();
+    let joiner = any_exact::<NH>();
+    let (psk, psk_bytes) = foreign_psk_secret();
+    let js = JoinerSecret::from(Zeroizing::new(joiner.clone()));
+
+    let r = WelcomeSecret::from_joiner_secret(&p, &js, &psk);
+    assert!(r.is_ok());
+    let w = r.ok().unwrap();
+    kani::cover!(true);
+    assert!(p.calls() == 4);
+    assert!(p.is(0, Op::Extract, &joiner, &psk_bytes, 0));
+    assert!(p.is(1, Op::Expand, &out(1, NH), &rfc_kdf_label(NH as u16, b"welcome", &[]), NH));
+    let k = p.find(Op::Expand, &out(2, NH), &rfc_kdf_label(NK as u16, b"key", &[]), NK);
+    let n = p.find(Op::Expand, &out(2, NH), &rfc_kdf_label(NN as u16, b"nonce", &[]), NN);
+    assert!(k.is_some() && n.is_some());
+    assert!(is_out(&w.key, k.unwrap(), NK));
+    assert!(is_out(&w.nonce, n.unwrap(), NN));
+}
+
+// ============================================================ 5. exporter
+// MLS-Exporter(Label, Context, Length) =
+//     ExpandWithLabel(DeriveSecret(exporter_secret, Label), "exported", Hash(Context), Length)
+// every Length 0..=65535, label of every length 0..=4, context of length 0..=4 (symbolic bytes)
+#[kani::proof]
+#[kani::stub(zeroize::optimization_barrier, noop_barrier)]
+#[kani::unwind(12)]
+fn c13_export_secret_bounded_4() {
+    let exporter = any_exact::<NH>();
+    let context = any_bytes::<4>();
+    let l: [u8; 4] = kani::any();
+    let len: usize = kani::any();
+    kani::assume(len <= 0xffff);
+    let mut ks = KeySchedule::default();
+    ks.exporter_secret = Zeroizing::new(exporter.clone());
+    for_each_prefix(&l, |label| {
+        let p = GhostProvider::new();
+        let r = ks.export_secret(label, &context, len, &p);
+        assert!(r.is_ok());
+        let o = r.ok().unwrap();
+        kani::cover!(label.len() == 4 && context.len() == 4 && len == 300);
+        assert!(p.calls() == 3);
+        let d = p.find(Op::Expand, &exporter, &rfc_kdf_label(NH as u16, label, &[]), NH);
+        let h = p.find(Op::Hash, &[], &context, 0);
+        assert!(d.is_some() && h.is_some());
+        let info = rfc_kdf_label(len as u16, b"exported", &out(h.unwrap(), HASH_LEN));
+        assert!(p.is(2, Op::Expand, &out(d.unwrap(), NH), &info, len));
+        assert!(o.len() == len);
+        let i: usize = kani::any();
+        kani::assume(i < len);
+        assert!(o[i] == 3);
+        core::mem::forget(o);
+    });
+    core::mem::forget(ks);
+}
+
+// a deleted exporter secret yields ExporterDeleted and no KDF call
+#[kani::proof]
+#[kani::stub(zeroize::optimization_barrier, noop_barrier)]
+#[kani::unwind(12)]
+fn c13_export_secret_deleted() {
+    let p = GhostProvider::new();
+    let mut ks = KeySchedule::default();
+    ks.exporter_secret = Zeroizing::new(any_exact::<NH>());
+    ks.delete_exporter();
+    let r = ks.export_secret(b"ab", b"c", kani::any(), &p);
+    kani::cover!(true);
+    assert!(matches!(r, Err(MlsError::ExporterDeleted)));
+    assert!(p.calls() == 0);
+    core::mem::forget((r, ks));
 }
